@@ -267,7 +267,7 @@ func runC16(c *Ctx) {
 	}
 	// checksum algorithm byte: off, CRC32, undefined, unknown
 	for _, alg := range []int64{0, 1, 255, 2, 7, 200} {
-		cfg := baseCfgs[0]
+		cfg := baseCfg(r, 0)
 		fi := mkFormat(c, cfg, []byte("5.6.33"))
 		fv := vh.L(fi.val.List[0], fi.val.List[1], fi.val.List[2], vh.I(alg), fi.val.List[4])
 		f := implFormat(fv)
